@@ -325,6 +325,35 @@ func genAggWindow(repo string) (string, error) {
 	fmt.Fprintf(&sbd, "(* %s:%d isNotTooFar: pRound <= lastBeacon.Round + partialCacheStoreLimit + extra *)\nDefinition agg_window_upper_inclusive : bool := %v.\nDefinition agg_window_upper_extra : Z := %d.\n", bsChainstoreFile, p(up), ub.Op == token.LEQ, extra)
 	fmt.Fprintf(&sbd, "(* %s:%d shouldStore := isNotInPast && isNotTooFar, checked before cache.Append *)\nDefinition agg_window_guards_append : bool := true.\n", bsChainstoreFile, p(ss))
 	fmt.Fprintf(&sbd, "(* case lastBeacon = <-c.beaconStoredAgg: cache.FlushRounds(lastBeacon.Round) *)\nDefinition agg_flush_on_stored : bool := %v.\n", flushOK)
+	// the aggregator's input channel: capacity and the blocking send of NewValidPartial
+	bufE := pf.findValue("defaultPartialChanBuffer")
+	if bufE == nil {
+		return "", fmt.Errorf("T-break: %s: constant defaultPartialChanBuffer not found", bsChainstoreFile)
+	}
+	bufV, err := pf.eval(bufE, 0)
+	if err != nil {
+		return "", fmt.Errorf("T-break: %s: defaultPartialChanBuffer: %w", bsChainstoreFile, err)
+	}
+	nvp := bsFindMethod(pf, "chainStore", "NewValidPartial")
+	if nvp == nil {
+		return "", fmt.Errorf("T-break: %s: chainStore.NewValidPartial not found", bsChainstoreFile)
+	}
+	// the hand-over is one plain send statement `c.newPartials <- ...` at the top level of the body
+	// (not a select with a default, not a goroutine): the caller waits when the channel is full
+	blocking, nSends := false, 0
+	ast.Inspect(nvp.Body, func(nd ast.Node) bool {
+		if snd, ok := nd.(*ast.SendStmt); ok && bsIsSel(snd.Chan, "c", "newPartials") {
+			nSends++
+		}
+		return true
+	})
+	for _, st := range nvp.Body.List {
+		if snd, ok := st.(*ast.SendStmt); ok && bsIsSel(snd.Chan, "c", "newPartials") && nSends == 1 {
+			blocking = true
+		}
+	}
+	fmt.Fprintf(&sbd, "(* %s:%d defaultPartialChanBuffer: capacity of the aggregator's input channel newPartials *)\nDefinition default_partial_chan_buffer : Z := %s.\n", bsChainstoreFile, p(bufE), bigZ(bufV))
+	fmt.Fprintf(&sbd, "(* chainStore.NewValidPartial hands a partial over with one plain (blocking) send on newPartials *)\nDefinition new_valid_partial_blocking_send : bool := %v.\n", blocking)
 	fmt.Fprintf(&sbd, "(* cache.FlushRounds(partial.p.GetRound()) precedes `if c.tryAppend(ctx, lastBeacon, newBeacon) { lastBeacon = newBeacon`;\n   tryAppend returns false unless newB.Round = last.Round+1 *)\nDefinition agg_flush_before_head_advance : bool := true.\n")
 	return sbd.String(), nil
 }
